@@ -58,11 +58,15 @@ func mk() *fixtures {
 	ac.RevokeAt("*", time.Unix(50, 0))
 	ac.Mappings["m"] = []jwt.WeightedMapping{{Subject: "n", Weight: 40}}
 	ac.Trace = &jwt.MsgTrace{Destination: "trace.dest"}
+	ac.Tags = append(ac.Tags, "Region-EU", "tier1")
 	f.acctTok, err = ac.Encode(f.okp)
 	must(err)
 	uc := jwt.NewUserClaims(upk)
 	uc.Pub.Allow.Add("a.>", "b")
 	uc.Tags.Add("T1")
+	// entries as a token written by other tooling (or direct assignment) can carry them: not in the lists' normal form
+	uc.Tags = append(uc.Tags, "Production", " Mixed Case ")
+	uc.Src = jwt.CIDRList{"10.0.0.0/8", "FE80::/10"}
 	f.userTok, err = uc.Encode(f.akp)
 	must(err)
 	at := jwt.NewActivationClaims(apk)
@@ -146,6 +150,10 @@ func script(f *fixtures, g, r int) []string {
 		add("str=%d %d tags=%v keys=%d", len(f.sharedAcct.String()), len(f.sharedUser.String()), f.sharedUser.GetTags(), len(f.sharedAcct.SigningKeys.Keys()))
 		sc, ok := f.sharedAcct.SigningKeys.GetScope(f.sharedAcct.Subject)
 		add("scope=%v %v contains=%v empty=%v", sc != nil, ok, f.sharedUser.Pub.Allow.Contains("b"), f.sharedUser.HasEmptyPermissions())
+		ut, at := f.sharedUser.GetTags(), f.sharedAcct.GetTags()
+		add("tags=%v %v %v src=%v %v acct=%v %v", f.sharedUser.Tags.Contains("production"), f.sharedUser.Tags.Contains("nope"), ut.Contains("t1"),
+			f.sharedUser.Src.Contains("fe80::/10"), f.sharedUser.Src.Contains("1.1.1.1/32"), f.sharedAcct.Tags.Contains("region-eu"), at.Contains("TIER1"))
+		add("usertext=%d tags=%q", len(f.sharedUser.String()), []string(f.sharedUser.Tags))
 	case 4: // fresh objects
 		u := jwt.NewUserClaims(f.sharedUser.Subject)
 		u.Name = fmt.Sprintf("n%d-%d", g, r)
